@@ -6,7 +6,7 @@ PID = 'C01'
 
 def derive(rec):
     r = rec.get('rule', {})
-    return {'freq': r.get('freq'), 'inter': r.get('inter', 1), 'has_mon': bool(r.get('mon')), 'has_wk': bool(r.get('wk')), 'has_yd': bool(r.get('yd')), 'has_md': bool(r.get('md')),
+    return {'has_yd_or_wk': bool(r.get('yd') or r.get('wk')), 'has_mon_or_md': bool(r.get('mon') or r.get('md')), 'freq': r.get('freq'), 'inter': r.get('inter', 1), 'has_mon': bool(r.get('mon')), 'has_wk': bool(r.get('wk')), 'has_yd': bool(r.get('yd')), 'has_md': bool(r.get('md')),
             'has_dow': bool(r.get('dow')), 'has_ord': any(p[0] for p in r.get('dow', [])), 'has_tod': bool(r.get('H') or r.get('M') or r.get('S')), 'has_pos': bool(r.get('pos')), 'ntod': max(1, len(r.get('H', []))) * max(1, len(r.get('M', []))) * max(1, len(r.get('S', []))),
             'has_count': bool(r.get('count')), 'has_until': bool(r.get('until')), 'timed': rec.get('ds', [0] * 7)[3] != 255, 'via': rec.get('via')}
 
@@ -83,6 +83,12 @@ def run(tier, seed, pid=PID):
         if e1 is None: e1 = x
         else: e1['states'] += x['states']; e1['transitions'] += x['transitions']
     cases = make_cases(rnd, tier, n_cat=None if tier == 'thorough' else 1300, pid=pid)
+    if pid == PID:
+        # combinations beyond the shape catalogue (own generator state: the populations above stay as they were)
+        rx = random.Random(seed * 7919 + 17)
+        for k in range(6000 if tier == 'thorough' else 400):
+            ds, r, tag = rrgen.extra_case(rx); uid = 'x%d' % k
+            cases.append({'uid': uid, 'ds': rrgen.inst(ds), 'rule': rrgen.spec_rule(r), 'tag': tag, 'rtext': rrgen.rule_text(r), 'ics': rrgen.event_ics(uid, ds, [r]), 'maxpop': rx.choice([70, 140]), 'mode': rx.choice('np')})
     # library path, in parallel slices
     nsl = vlib.NCPU; per = -(-len(cases) // nsl)
     import concurrent.futures as cf
